@@ -358,6 +358,8 @@ def variants(root):
                  '    s = np.tile(ci, (n, 1))\n    q = np.sum((s == np.arange(1, n + 1)) * B / m)', 'C.raw', 'modularity_und'))
     out.append(V('modularity_dir: label difference used as weight', 'break', M, 'q = np.sum(np.logical_not(s - s.T) * B / (2 * m))',
                  'q = np.sum((1 - np.abs(s - s.T)) * B / (2 * m))', 'C.raw', 'modularity_dir'))
+    out.append(V('module_degree_zscore: module count from the raw label values', 'break', C, canon, canon.replace('_, ci', 'mods, ci'), 'C.raw', 'module_degree_zscore',
+                 also=[(C, 'for i in range(1, int(np.max(ci) + 1)):', 'for i in range(1, int(np.max(mods)) + 1):', 1)], scope='def module_degree_zscore('))
     out.append(V('partition_distance: cy not canonicalised', 'break', M, '    _, cy = np.unique(cy, return_inverse=True)\n', '', 'C.', 'partition_distance'))
     out.append(V('partition_distance: pairing before canonicalisation', 'break', M,
                  '    _, cx = np.unique(cx, return_inverse=True)\n    _, cy = np.unique(cy, return_inverse=True)\n    _, cxy = np.unique(cx + cy * 1j, return_inverse=True)\n',
